@@ -566,6 +566,8 @@ func (c *checker) paginate(w *world, q Query, pageSize int) (walk, bool) {
 	want, ordered := w.expected(q)
 	wk := w.follow(q, pageSize, "", len(want)+3)
 	c.r.Eval(1)
+	c.r.Count("walks_"+q.API, 1)
+	c.r.Count("api_calls_in_walks", int64(len(wk.pages)))
 	cs := Case{Query: q, PageSize: pageSize, Got: wk.items, Want: want}
 	ok := true
 	bad := func(sig, desc string) {
@@ -613,23 +615,29 @@ func (c *checker) judgeForged(w *world, q Query, kind, token, decoded string, re
 	wk := w.follow(q, maxPage, token, len(ref)/maxPage+3)
 	c.r.Eval(1)
 	cs := Case{Query: q, PageSize: maxPage, Kind: kind, Token: token, Decoded: decoded, Got: wk.items, Want: ref}
+	beyond := false
+	if n, err := strconv.ParseInt(strings.SplitN(decoded, "|", 2)[0], 10, 64); err == nil && wantPos >= 0 && n > int64(len(ref)) && w.backend == "memory" && q.API != "ReadChanges" {
+		beyond = true
+	}
 	switch {
 	case wk.panic != "":
 		c.violate(w, "forged-token-panic:"+panicClass(wk.panic), fmt.Sprintf("token %q (decoded %q): panic %s", token, decoded, wk.panic), cs)
 	case wk.err != "":
-		// rejected: fine
+		c.r.Count("forged_tokens_rejected", 1)
+		c.r.Nontrivial(core.Hash("forged-rejected", w.backend, q.String(), kind))
+	case beyond && len(wk.items) > 0:
+		// an offset past the end must denote the end (or be rejected); the data is served again from the first item
+		// (and, when the data does not fit one page, the returned tokens grow forever: wk.note == no-termination)
+		c.violate(w, "forged-token-misread:offset-beyond-data-restarts-from-first-item", fmt.Sprintf("token %q (decoded %q) accepted; %d items returned although the offset is past the %d items (%s)", token, decoded, len(wk.items), len(ref), wk.note), cs)
 	case wk.note != "" && wk.note != "nonempty-token-with-empty-page":
 		c.violate(w, "forged-token:"+wk.note, fmt.Sprintf("token %q (decoded %q)", token, decoded), cs)
 	case !isSuffix(wk.items, ref):
 		c.violate(w, "forged-token-misread:"+kind+"-yields-non-contiguous-result", fmt.Sprintf("token %q (decoded %q) accepted; result is not a tail of the data", token, decoded), cs)
 	case wantPos >= 0 && len(ref)-len(wk.items) != wantPos:
-		cls := "wrong-position"
-		if n, err := strconv.ParseInt(strings.TrimSpace(strings.SplitN(decoded, "|", 2)[0]), 10, 64); err == nil && n > int64(len(ref)) && len(wk.items) == len(ref) && len(ref) > 0 {
-			cls = "offset-beyond-data-restarts-from-first-item"
-		}
-		c.violate(w, "forged-token-misread:"+cls, fmt.Sprintf("token %q (decoded %q) accepted at position %d of %d, the value denotes position %d", token, decoded, len(ref)-len(wk.items), len(ref), wantPos), cs)
+		c.violate(w, "forged-token-misread:wrong-position", fmt.Sprintf("token %q (decoded %q) accepted at position %d of %d, the value denotes position %d", token, decoded, len(ref)-len(wk.items), len(ref), wantPos), cs)
 	default:
-		c.r.Nontrivial(core.Hash("forged", w.backend, q.API, kind, strconv.Itoa(len(wk.items))))
+		c.r.Count("forged_tokens_accepted_at_a_consistent_position", 1)
+		c.r.Nontrivial(core.Hash("forged-accepted", w.backend, q.String(), kind))
 	}
 }
 
@@ -892,7 +900,7 @@ func Run(o *core.Options) int {
 	var jobs []job
 	for _, n := range sizes(o.Thorough()) {
 		for _, b := range []string{"memory", "sqlite"} {
-			jobs = append(jobs, job{b, n, n == 5 || (o.Thorough() && (n == 12 || n == 33))})
+			jobs = append(jobs, job{b, n, n == 5 || (o.Thorough() && (n == 12 || n == 33 || n == 101))})
 		}
 	}
 	// largest first for balance
@@ -905,6 +913,16 @@ func Run(o *core.Options) int {
 	wk := w.follow(q, 2, "", 10)
 	want, _ := w.expected(q)
 	r.Sample(map[string]any{"backend": "memory", "n": 3, "query": q, "page_size": 2, "pages": wk.pages, "tokens": wk.tokens, "concatenation": wk.items, "expected": want})
+	w.closeFn()
+	w = newWorld("sqlite", 5)
+	q = Query{API: "Read", Store: 1, HasKey: true, Object: "doc:d"}
+	wk = w.follow(q, 1, "", 10)
+	want, _ = w.expected(q)
+	r.Sample(map[string]any{"backend": "sqlite", "n": 5, "query": q, "page_size": 1, "pages": wk.pages, "tokens": wk.tokens, "concatenation": wk.items, "expected_multiset": want})
+	q = Query{API: "ReadAuthorizationModels"}
+	wk = w.follow(q, 2, "", 10)
+	want, _ = w.expected(q)
+	r.Sample(map[string]any{"backend": "sqlite", "n": 5, "query": q, "page_size": 2, "pages": wk.pages, "tokens": wk.tokens, "concatenation": wk.items, "expected": want})
 	w.closeFn()
 	return r.Finish()
 }
